@@ -16,6 +16,8 @@ canonical encodings of a pair the validator accepts MUST be accepted (forwarded 
 credential header absent upstream); missing / non-Basic / undecodable / rejected pairs MUST be refused (nothing of
 the request reaches any upstream connection, no connection is opened for a refused CONNECT or SOCKS5 client, the
 client gets 407+Proxy-Authenticate, 401+WWW-Authenticate, or the RFC 1929 failure status and a close);
+a pair for which the validator object itself *raises* (e.g. > 72 bytes for a bcrypt htpasswd entry) counts as not
+accepted and must be refused just the same (hook exceptions are swallowed by the addon manager, as in mitmproxy);
 sloppy encodings of an accepted pair may go either way but consistently.  No presented credential token may appear
 in any upstream byte stream.  Forwarded and returned bytes are parsed by the harness' own HTTP/1 parser.
 """
@@ -51,7 +53,11 @@ ACCEPT, REJECT, EITHER = "accept", "reject", "either"
 PAIRS = [("user", "pass"), ("user", "wrong"), ("resu", "pass"), ("User", "pass"), ("user", "Pass"), ("user", ""),
          ("alice", "wonder:land"), ("alice", "wonder"), ("alice", ":"), ("bob", "pässwörd"), ("bob", "passwoerd"),
          ("üser", "pass"), ("carol", ""), ("carol", "x"), ("dave", "a:b:c"), ("user name", "p@ss word"),
-         ("user", "pass "), ("user", "pass:"), ("erin", "x" * 200), ("", "pass"), ("", ""), ("user", "pa\x00ss")]
+         ("user", "pass "), ("user", "pass:"), ("erin", "x" * 200), ("", "pass"), ("", ""), ("user", "pa\x00ss"),
+         # pairs for which a validator object itself may raise instead of answering False (bcrypt entries refuse
+         # passwords > 72 bytes with ValueError): not accepted => must be refused like any wrong password
+         ("bob", "x" * 73), ("dave", "y" * 100), ("bob", "\u00e4" * 40), ("bob", "p\u00e4ssw\u00f6rd" + "z" * 70),
+         ("dave", "a:b:c" + ":" * 80), ("bob", "pa\x00ss")]
 SINGLE = [("user", "pass"), ("üser", "pass"), ("user", ""), ("user name", "p@ss word"), ("bob", "pässwörd")]
 HT_ENTRIES = [("alice", "wonder:land", "sha"), ("bob", "pässwörd", "bcrypt"), ("carol", "", "sha"),
               ("dave", "a:b:c", "bcrypt"), ("user", "pass", "sha"), ("user name", "p@ss word", "sha"), ("erin", "x" * 200, "sha")]
@@ -183,10 +189,20 @@ def cred_headers(req, name: bytes):
     raise HarnessError("enc %r" % enc)
 
 
+def accepts(validator, u, p):
+    """-> (accepted, raised): a validator that raises has not accepted the pair"""
+    try:
+        return bool(validator(u, p)), False
+    except Exception:
+        return False, True
+
+
 def expectation(req, validator, socks=False, any_validator=False) -> str:
-    """ACCEPT / REJECT only where every reasonable reading of the header agrees; EITHER otherwise"""
+    """ACCEPT / REJECT only where every reasonable reading of the header agrees; EITHER otherwise.
+    Credentials the validator does not accept - it returns False *or raises* - must be refused."""
     u, p, enc = req["user"], req["password"], req["enc"]
-    ok = bool(validator(u, p))
+    ok, raised = accepts(validator, u, p)
+    req["_raises"] = raised
     if socks:
         # RFC 1929 carries the two fields length-prefixed: every pair is representable (<= 255 bytes each)
         if enc in SOCKS_NOAUTH:
@@ -215,7 +231,7 @@ def expectation(req, validator, socks=False, any_validator=False) -> str:
     if enc in ("two-spaces", "dup-same"):
         return EITHER if ok else REJECT
     if enc == "dup-mixed":
-        return EITHER if (ok or validator(u, p + "x")) else REJECT
+        return EITHER if (ok or accepts(validator, u, p + "x")[0]) else REJECT
     raise HarnessError("enc %r" % enc)
 
 
@@ -241,6 +257,8 @@ def cred_class(req):
         c.append("long")
     if "\x00" in p:
         c.append("nul")
+    if req.get("_raises"):
+        c.append("validator-raises")
     return ",".join(c) or "plain"
 
 
@@ -392,8 +410,10 @@ def check_case(case, ctx):
     if d.crashed is not None:
         ctx.crash(d.crashed, "layer-crash")
         return
+    # an exception inside an addon hook is logged and swallowed by the addon manager; what matters for C20 is
+    # the outcome (judged below), so it is only counted
     for name, e in env.addon_errors:
-        ctx.crash(e, "addon-error:" + name)
+        ctx.cls("addon-error-swallowed:%s:%s" % (name, type(e).__name__))
 
     up_bytes = b"".join(bytes(o.buf) for o in origins)
     forwarded = [(o, r) for o in origins for r in o.requests]
@@ -421,7 +441,7 @@ def check_case(case, ctx):
         if not head_ok:
             fail("socks5-method-selection:" + klass, "client got %r" % cout[:12])
         if accepted0 and exp == REJECT:
-            fail("must-reject-but-accepted:" + klass, "status %r, validator says %r" % (status, validator(m0["req"]["user"], m0["req"]["password"])))
+            fail("must-reject-but-accepted:" + klass, "status %r, validator says %r" % (status, accepts(validator, m0["req"]["user"], m0["req"]["password"])))
         if not accepted0:
             if exp == ACCEPT:
                 fail("must-accept-but-rejected:" + klass, "client got %r" % cout[:12])
@@ -482,7 +502,7 @@ def check_case(case, ctx):
             fail("must-reject-but-accepted:" + klass, "response %r forwarded %r" % (resp, [r.start for _, r in fw]))
         if not accepted and exp == ACCEPT:
             fail("must-accept-but-rejected:" + klass, "response %r; validator(%r,%r)=%r" % (
-                resp, rq["user"], rq["password"], validator(rq["user"], rq["password"])))
+                resp, rq["user"], rq["password"], accepts(validator, rq["user"], rq["password"])))
         if not accepted:
             if resp is None or resp.status != challenge[0] or not resp.get_all(challenge[1]):
                 fail("reject-answer:" + klass, "expected %d with %s, got %r" % (challenge[0], challenge[1], resp))
